@@ -419,7 +419,9 @@ Definition thread_step (s : state) (v : vid) (t : tid) : option state :=
       end
   | PInLocked k e =>
       let stk := st (th s k) in
-      if tstate_eqb stk SLEEPING then
+      (* `0 <? e` is the model's restriction on interrupt error numbers, checked at OInterrupt already;
+         it is re-tested here (always true in reachable states) so that the proofs need no pc invariant *)
+      if tstate_eqb stk SLEEPING && (0 <? e) then
         let s1 := updT s k (fun y => t_wk (t_err y e) WInterrupted) in
         Some (set_pc (wake_by s1 v k) t (PInUnlock k e None))
       else Some (set_pc s t (PInUnlock k e (Some stk)))
@@ -433,7 +435,8 @@ Definition thread_step (s : state) (v : vid) (t : tid) : option state :=
       if tstate_eqb stk READY && (err (th s k) =? 0) then Some (set_pc s t (PInWrite k e))
       else Some (finish_op s t 0 0)
   | PInWrite k e =>
-      Some (finish_op (updT s k (fun y => t_err y e)) t 0 0)
+      if 0 <? e then Some (finish_op (updT s k (fun y => t_err y e)) t 0 0)
+      else Some (finish_op s t 0 0)
   end.
 
 (* ---- the idler of vCPU v (2092-2121) with resume_threads_inlined (1263-1304) ------------- *)
